@@ -38,6 +38,8 @@ def expr_tokens(e):
         return ['p', str(e[1])]
     if k == 'lit':
         return ['lit', str(e[1])]
+    if k == 'una':
+        return ['una']
     if k == 'NOT':
         return ['not'] + expr_tokens(e[1])
     if k == 'AVAILABLE':
@@ -65,11 +67,16 @@ def gen_expr(rng, avail, depth):
         f = rng.choice(['ADD', 'ADD', 'SUB', 'MUL', 'MIN', 'MAX'])
         n = 2 if f == 'SUB' else rng.choice([2, 2, 3])
         return [f] + [gen_expr(rng, avail, depth - 1) for _ in range(n)]
-    if r < 0.74:
+    if r < 0.72:
         f = rng.choice(['GT', 'EQ', 'AND', 'OR'])
         return [f, gen_expr(rng, avail, depth - 1), gen_expr(rng, avail, depth - 1)]
-    if r < 0.80:
+    if r < 0.78:
         return ['NOT', gen_expr(rng, avail, depth - 1)]
+    if r < 0.84:
+        # turns unavailable (after having had a value) when the condition flips
+        x = [['una'], gen_expr(rng, avail, depth - 1)]
+        rng.shuffle(x)
+        return ['IF', ['p', rng.choice(avail)], x[0], x[1]]
     if r < 0.90:
         return ['IF', gen_expr(rng, avail, depth - 1), gen_expr(rng, avail, depth - 1),
                 gen_expr(rng, avail, depth - 1)]
@@ -88,12 +95,16 @@ class C01(Prop):
     N_QUICK = 6500
     N_THOROUGH = 48000
     CASE_TIMEOUT = 120
-    RULE = ('random hubs of 2..6 register-like ports (number/boolean, per-call read/write latencies from '
+    RULE = ('random hubs of 2..6 ports: instrumented register ports (number/boolean, per-call read/write latencies from '
             '{0,1,7,20,120} ms, 20 % with mutually inverse write/read transforms, 15 % sampling the register at the start '
-            'of the read call), expressions over an acyclic graph (port i reads ports < i) in a small language '
-            '(ADD SUB MUL MIN MAX GT EQ AND OR NOT IF AVAILABLE DEFAULT, integer values), 1..4 bursts of timed '
+            'of the read call, 35 % with handle_enable/handle_disable hooks taking 0/20/120/300 ms so that enabling and '
+            'disabling span several polling passes) and REAL core.vports.VirtualPort objects created through POST /ports '
+            '(30 % of the derived ports, 45 % of the API-written sources), expressions over an acyclic graph (port i reads ports < i) in a small language '
+            '(ADD SUB MUL MIN MAX GT EQ AND OR NOT IF AVAILABLE DEFAULT, the literal `unavailable`, integer values; '
+            'IF(cond, x, unavailable) and sources going unavailable make expressions lose their value after having had one), 1..4 bursts of timed '
             'operations (driver-level source changes, API writes on ports without expression, expression edits, '
-            'enable/disable, driver read faults on sources: read_value raising / SkipRead until recovery) run against '
+            'enable/disable, DELETE + POST of a virtual source port, driver read faults on sources: read_value raising / '
+            'SkipRead until recovery) run against '
             'the real 50 ms polling loop in virtual time; after each burst the hub is '
             'left alone until quiescent. Non-trivial = at least one derived port was written by its expression in a '
             'burst; distinct = distinct (expressions, latencies, burst scripts).')
@@ -113,6 +124,13 @@ class C01(Prop):
                    'expression; a port without expression gets its first one while none of its API writes is in flight',
                    'evaluation errors (disabled or unknown port, arithmetic error) leave the port unconstrained',
                    'a port whose expression was cleared keeps whatever was written last (not compared with the model)',
+                   'H1 covers "unavailable" too: writing None is register := none and the confirming read returns None (a '
+                   'driver that silently skips None writes breaks H1 and is reported by the oracle "unavailable when the '
+                   'expression is unavailable")',
+                   'modelled order of BasePort.enable()/disable(): flag flipped and forced evaluations registered in one '
+                   'atomic stretch BEFORE the driver hook is awaited (Core.enable / Core.disable), the hook returning later '
+                   'is the stuttering action Core.hookDone; hooks that raise are not modelled; a deleted port is modelled '
+                   'as a disabled one (an expression reading a missing or a disabled port fails alike)',
                    'driver read faults (raising read_value incl. the 10 s retry suspension, SkipRead) on ports WITHOUT '
                    'expression are stuttering steps of the model (Core.passSkip, covered by `converges`); the oracle is '
                    'evaluated on the real hub also at quiescent moments while a source cannot be read (it must keep '
@@ -181,6 +199,23 @@ class C01(Prop):
                     'bursts': [[[0, 'expr', 1, ['ADD', ['p', 0], ['p', 0]]], [0, 'en', 2, False]],
                                [[0, 'src', 0, 1], [0, 'en', 1, False]], [[233, 'expr', 1, None]], [[24, 'api', 1, 2]],
                                [[7, 'en', 1, True], [104, 'src', 0, None]]]})
+        # enabling a port whose driver hook (handle_enable) stays suspended over several passes: the port counts as enabled
+        # and its forced evaluation is registered BEFORE the hook is awaited
+        out.append({'ports': [dict(src, reg=3),
+                              {'type': 'number', 'reg': 0, 'rlat': [0], 'wlat': [0], 'expr': ['p', 0], 'hlat': [300, 300]}],
+                    'bursts': [[[0, 'en', 1, False]], [[0, 'src', 0, 7]], [[10, 'en', 1, True]], [[0, 'src', 0, 2]]]})
+        # derived REAL virtual ports (POST /ports) whose expression turns unavailable after they had a value: condition
+        # flips; the virtual source is deleted and created again
+        out.append({'ports': [{'type': 'boolean', 'reg': None, 'rlat': [0], 'wlat': [0], 'expr': None, 'virt': True,
+                               'kind': 'virtual'},
+                              {'type': 'number', 'reg': None, 'rlat': [0], 'wlat': [0], 'expr': None, 'virt': True,
+                               'kind': 'virtual'},
+                              {'type': 'number', 'reg': None, 'rlat': [0], 'wlat': [0], 'virt': True, 'kind': 'virtual',
+                               'expr': ['IF', ['p', 0], ['p', 1], ['una']]},
+                              {'type': 'number', 'reg': None, 'rlat': [0], 'wlat': [0], 'virt': True, 'kind': 'virtual',
+                               'expr': ['p', 1]}],
+                    'bursts': [[[0, 'api', 0, 1], [5, 'api', 1, 5]], [[0, 'api', 0, 0]], [[0, 'api', 0, 1]],
+                               [[0, 'readd', 1]], [[0, 'api', 1, 4]]]})
         # third defect (force-capture): expression port enabled while a (long) polling pass is past its turn
         out.append({'ports': [dict(src, reg=None),
                               {'type': 'number', 'reg': 3, 'rlat': [0], 'wlat': [0], 'expr': ['p', 0], 'enabled': False},
@@ -202,6 +237,8 @@ class C01(Prop):
                 spec['xf'] = True
             if rng.random() < 0.15:
                 spec['sample'] = 'begin'
+            if rng.random() < 0.35:     # the driver's enable / disable hooks take time: the operation spans several passes
+                spec['hlat'] = [rng.choice([0, 20, 120, 300]) for _ in range(rng.choice([1, 2, 3]))]
             if i >= nsrc and rng.random() < 0.9:
                 e = gen_expr(rng, list(range(i)), rng.choice([0, 1, 1, 2, 3]))
                 if not has_port(e):
@@ -210,6 +247,12 @@ class C01(Prop):
                 exprs[i] = e
             else:
                 spec['kind'] = rng.choice(['sensor', 'sensor', 'virtual'])
+            if rng.random() < (0.3 if spec['expr'] is not None else 0.45 if spec['kind'] == 'virtual' else 0):
+                # a REAL core.vports.VirtualPort created through POST /ports: no latencies, no value to begin with
+                spec = {'type': typ, 'reg': None, 'rlat': [0], 'wlat': [0], 'expr': spec['expr'],
+                        'enabled': spec['enabled'], 'virt': True, 'kind': 'virtual'}
+                if spec['expr'] is None:
+                    pass
             ports.append(spec)
         enabled = [p['enabled'] for p in ports]
         faulting = set()
@@ -224,7 +267,17 @@ class C01(Prop):
                 t = rng.randint(0, span) if span else 0
                 r = rng.random()
                 sources = [i for i in range(n) if i not in exprs and i not in structural]
-                if r < 0.07:
+                if r < 0.03:
+                    # DELETE + POST of a real virtual source port: the expressions reading it become unavailable
+                    cands = [i for i in range(n) if ports[i].get('virt') and i not in exprs
+                             and not any(o[2] == i for o in ops)]
+                    if not cands:
+                        continue
+                    i = rng.choice(cands)
+                    structural.add(i)
+                    enabled[i] = True
+                    ops.append([t, 'readd', i])
+                elif r < 0.09:
                     # driver read fault on a sensor source (begins, or an earlier one ends); alone on its port in a burst
                     cands = [i for i in range(n) if i not in exprs and kinds[i] == 'sensor'
                              and not any(o[2] == i for o in ops)]
@@ -295,6 +348,11 @@ class C01(Prop):
                     return False        # a fault begins / ends alone on its port, on a port without expression
                 if o[1] in ('expr', 'api') and o[2] in faulting:
                     return False
+                if o[1] == 'readd' and (o[2] in exprs or not case['ports'][o[2]].get('virt')
+                                        or sum(1 for x in burst if x[2] == o[2]) != 1):
+                    return False
+                if o[1] in ('src', 'fault') and case['ports'][o[2]].get('virt'):
+                    return False        # a real virtual port has no external register
                 if o[1] == 'expr' and o[3] is not None and any(q >= o[2] for q in hub_c01.expr_deps(o[3])):
                     return False
             for o in burst:
@@ -327,7 +385,7 @@ class C01(Prop):
             if not used:
                 yield {'ports': ports[:-1], 'bursts': bursts}
         for i, p in enumerate(ports):
-            for key in ('xf', 'sample'):
+            for key in ('xf', 'sample', 'hlat'):
                 if key in p:
                     q = {k: v for k, v in p.items() if k != key}
                     yield {'ports': ports[:i] + [q] + ports[i + 1:], 'bursts': bursts}
@@ -373,7 +431,14 @@ class C01(Prop):
         for burst in [[]] + list(case['bursts']):
             for op in burst:
                 k, i = op[1], op[2]
-                if k == 'fault':
+                if k == 'readd':
+                    # the model has no port removal: deleting a port is disabling it (an expression reading a missing or a
+                    # disabled port fails alike), the fresh port is the same port enabled again with an empty register
+                    ask(f'dis {i}')
+                    if ask(f'src {i} na') != 'ok':
+                        return None, 'out-of-model:readd'
+                    line = f'en {i}'
+                elif k == 'fault':
                     # a failing read is a stuttering step of the model (Core.passSkip): nothing to tell the driver; the
                     # register changes made while the driver cannot be read become visible when it recovers
                     if op[3] is not None:
@@ -494,6 +559,8 @@ class C01(Prop):
                         fault_clean.discard(op[2])
                 elif op[1] == 'en':
                     fault_clean.discard(op[2])
+                elif op[1] == 'readd':
+                    floating.discard(op[2])
             st = ob['state']
             enabled_now = [x['enabled'] for x in st]
             for entry in ob['log']:
@@ -555,8 +622,9 @@ class C01(Prop):
                     want = 'ok ' + ('val:%d' % ref[1] if ref[0] == 'val' else ref[0])
                     if rep != want:
                         deps = hub_c01.expr_deps(cur_expr[i]) if i in cur_expr else set()
-                        if any(not st[q]['enabled'] for q in deps) and any(
-                                st[q]['enabled'] and st[q]['value'] is None for q in deps):
+                        if {rep, want} == {'ok na', 'ok err'} and any(not st[q]['enabled'] for q in deps) and (
+                                any(st[q]['enabled'] and st[q]['value'] is None for q in deps)
+                                or "'una'" in repr(cur_expr[i])):
                             tags.add('ambiguous-error-class')    # gather() ordering decides error vs unavailable
                             model = None
                             break
@@ -590,6 +658,10 @@ class C01(Prop):
             tags.add('transforms')
         if any(p.get('sample') == 'begin' for p in ports):
             tags.add('sample-at-begin')
+        if any(p.get('virt') and p.get('expr') is not None for p in ports):
+            tags.add('derived-real-virtual-port')
+        if any(any(x for x in p.get('hlat', ())) for p in ports):
+            tags.add('slow-enable-hooks')
         tags.add(f'ports:{n}')
         tags.add(f'bursts:{len(case["bursts"])}')
         for bst in case['bursts']:
